@@ -967,10 +967,11 @@ def find_case(ck, batch, d):
             tt, dur, sat = truth[file_info.path]
             return FileInfo(file_info.path, [tt, tt + dt.timedelta(seconds=dur, microseconds=rng.choice([0, 1]) if False else 0)], {"dur": dur})
 
-        def mk(cache):
+        def mk(cache, coverage=None):
             with warnings.catch_warnings(record=True) as w:
                 warnings.simplefilter("always")
-                fs = FileSet(pattern, handler=FileHandler(info=info_fn), info_via=via, info_cache=cache, name="f")
+                fs = FileSet(pattern, handler=FileHandler(info=info_fn), info_via=via, info_cache=cache, name="f",
+                             time_coverage=coverage)
             atexit.unregister(FileSet.save_cache)
             return fs, [str(x.message) for x in w if "cache" in str(x.message)]
         cfile = os.path.join(sub, CACHE)
@@ -1022,6 +1023,28 @@ def find_case(ck, batch, d):
                 ck.disagree(f"cache after look-ups: model {out[-1][:100]} vs code {final[:2]}", case)
         if all(" " not in json.dumps(p) for p in truth):
             batch.add(lines, cb)
+        # every kind of value assigned to time_coverage must reset the cache: find() through the warm, cached object must
+        # equal find() of a fresh uncached FileSet with that coverage - directly, and after save + restart
+        values = [rng.choice(["1 hour", "90 minutes"]), dt.timedelta(minutes=rng.choice([5, 61])), None, "2 hours", "2 hours", None, None]
+        rng.shuffle(values)
+        for v in values[:rng.randint(3, 7)]:
+            fs2.time_coverage = v
+            plain, _ = mk(None, v)
+            want_f = canon(plain.find(lo, hi, no_files_error=False))
+            got_f = canon(fs2.find(lo, hi, no_files_error=False))
+            ccase = dict(case, op="coverage", assigned=str(v))
+            if got_f != want_f:
+                ck.violation("stale-cache-after-coverage-change", f"after time_coverage = {v!r} find() through the cached fileset gives "
+                                                                  f"{got_f[:2]}, an uncached fileset {want_f[:2]}", ccase)
+                break
+            fs2.save_cache(cfile)
+            fs3, w3 = mk(cfile, v)
+            got_r = canon(fs3.find(lo, hi, no_files_error=False))
+            if got_r != want_f or w3:
+                ck.violation("stale-cache-after-coverage-change", f"after time_coverage = {v!r}, save and restart find() gives {got_r[:2]}, "
+                                                                  f"an uncached fileset {want_f[:2]}", ccase)
+                break
+            ck.case(key=("coverage", json.dumps(case["files"]), str(v), via) if want_f else None, kind="coverage/" + type(v).__name__)
     finally:
         shutil.rmtree(sub, ignore_errors=True)
 
@@ -1036,6 +1059,7 @@ def history_case(ck, batch, d, nops):
     put_file(cfile, None)
     put_file(cfile + ".backup", None)
     fs, w, exc = new_fileset(d, cfile)
+    cov = None                          # current time_coverage of the fileset (a restart builds a fileset without one)
     lines, checks, ops = ["new", f"init {CACHE}"], [], []
     o_cache, o_file = [], None          # oracle: in-memory entries, document on disk (None | entries | "bad")
 
@@ -1048,7 +1072,8 @@ def history_case(ck, batch, d, nops):
         if not same_cache(got, o_cache):
             ck.violation("history-cache", f"after {tag}: cache {got[:3]} expected {o_cache[:3]}", {"op": "history", "ops": list(ops)})
     for step in range(nops):
-        op = rng.choice(["fill", "fill", "save", "save", "crash", "crash", "restart", "restart", "corrupt", "load", "reset", "getinfo"])
+        op = rng.choice(["fill", "fill", "save", "save", "crash", "crash", "restart", "restart", "corrupt", "load", "reset", "getinfo",
+                         "getinfo", "coverage"])
         if op == "fill":
             add = gen_doc(rng, rng.choice([1, 2, 3]), base=f"/h{rng.randint(0, 3)}")
             for e in add:
@@ -1086,6 +1111,7 @@ def history_case(ck, batch, d, nops):
                 if dl:
                     lines.append(dl)
             fs, w, exc = new_fileset(d, cfile)
+            cov = None
             ops.append(["restart"])
             lines.append(f"init {CACHE}")
             if exc is not None:
@@ -1130,11 +1156,24 @@ def history_case(ck, batch, d, nops):
             o_cache = []
             ops.append(["reset"])
             lines.append("reset")
+        elif op == "coverage":
+            # any assignment to time_coverage (None, text, timedelta, the same value again) empties the cache
+            v = rng.choice([None, None, "1 hour", dt.timedelta(minutes=5), "same"])
+            if v == "same":
+                v = fs.time_coverage
+            fs.time_coverage = v
+            cov = fs.time_coverage if isinstance(fs.time_coverage, dt.timedelta) else None
+            o_cache = []
+            ops.append(["coverage", str(v)])
+            lines.append("reset")
         elif op == "getinfo":
             # a file whose name carries the times: 20200102_030405.dat
             t = from7(gen_time(rng)).replace(microsecond=0)
             p = os.path.join(d, "data", t.strftime("%Y").zfill(4) + t.strftime("%m%d_%H%M%S.dat"))
-            comp = [p, t7(t), t7(t), {}]
+            try:
+                comp = [p, t7(t), t7(t + cov) if cov else t7(t), {}]
+            except OverflowError:
+                continue
             poisoned = rng.random() < 0.4
             if poisoned:
                 # pin "cache look-up before any parsing": pre-fill the cache with deliberately different information
@@ -1181,6 +1220,51 @@ def history_case(ck, batch, d, nops):
                     ck.disagree(f"history after {tag}: model cache {o[:100]} vs code {got[:3]}", case)
                     return
     batch.add(lines, cb)
+
+
+def single_file_case(ck, d):
+    """single-file fileset: time_coverage is a (start, end) pair; every assignment (pair, another pair, the same pair again,
+    None) must be visible in get_info / find at once, also with a cache file in play"""
+    from typhon.files import FileSet
+    from typhon.files.handlers.common import FileInfo
+    rng = ck.rng
+    sub = tempfile.mkdtemp(dir=d)
+    try:
+        path = os.path.join(sub, "single.dat")
+        builtins.open(path, "w").close()
+        cfile = os.path.join(sub, CACHE)
+        fs = FileSet(path, info_cache=cfile, name="single")
+        atexit.unregister(FileSet.save_cache)
+        pairs = []
+        while len(pairs) < 3:
+            a, b = sorted([from7(gen_time(rng)), from7(gen_time(rng))])
+            if a < b and a > dt.datetime.min and b < dt.datetime.max:      # boundary semantics of find() itself is C01
+                pairs.append((a, b))
+        seq = [pairs[0], pairs[1], pairs[1], None, pairs[2], None, None]
+        rng.shuffle(seq)
+        for v in seq[:rng.randint(3, 7)]:
+            fs.get_info(FileInfo(path))                      # warm the cache with the previous coverage
+            fs.time_coverage = v
+            want = [t7(v[0]), t7(v[1])] if v else [list(MIN7), list(MAX7)]
+            case = {"op": "single-file-coverage", "assigned": [t7(v[0]), t7(v[1])] if v else None}
+            info = fs.get_info(FileInfo(path))
+            got = [t7(info.times[0]), t7(info.times[1])]
+            found = [[t7(i.times[0]), t7(i.times[1])] for i in fs.find(no_files_error=False)]
+            if got != want or found != [want]:
+                ck.violation("stale-cache-after-coverage-change", f"single-file fileset: after time_coverage = {case['assigned']} get_info gives "
+                                                                  f"{got}, find {found}, expected {want}", case)
+                return
+            fs.save_cache(cfile)
+            fs2 = FileSet(path, info_cache=cfile, time_coverage=v, name="single")
+            atexit.unregister(FileSet.save_cache)
+            got2 = [[t7(i.times[0]), t7(i.times[1])] for i in fs2.find(no_files_error=False)]
+            if got2 != [want]:
+                ck.violation("stale-cache-after-coverage-change", f"single-file fileset: after time_coverage = {case['assigned']}, save and restart "
+                                                                  f"find gives {got2}, expected {want}", case)
+                return
+            ck.case(key=("single", json.dumps(case["assigned"])), kind="coverage/single-file")
+    finally:
+        shutil.rmtree(sub, ignore_errors=True)
 
 
 # ---------------------------------------------------------------- part F2: every save writes the CURRENT cache
@@ -1369,6 +1453,7 @@ def explore(ck, batch, d, n_docs, n_time, n_find, n_hist, n_hard, thorough, n_at
             resave_case(ck, batch, d, doc[:4], how, gen_doc(rng, rng.choice([0, 0, 1, 2]), base="/second"))
     for _ in range(n_find):
         find_case(ck, batch, d)
+        single_file_case(ck, d)
     for _ in range(n_hist):
         history_case(ck, batch, d, rng.randint(4, 25))
     for _ in range(n_hard):
